@@ -15,6 +15,8 @@
        nothing when the table is already nil), transport Close begin / end,
        spawn the goroutine that runs RemoveConn (base RemCall .. RemRet) and
        then releases its ref.
+   Further Swarm.Close calls (SClose2Call / SClose2Ret) wait on closeOnce: they return only once the call
+   that runs the shutdown has finished it.
    Swarm.Close [x_pc]: call; conns.m = nil under the lock (every open conn
      leaves the table in one atomic block: x_pc = XNiling admits only the base
      Unreg steps), Conn.Close on each; refs.Wait; connectionEventsEmitter.Close
@@ -59,7 +61,8 @@ Inductive slab :=
 | SCloseReq (c : nat) | SDBegin (c : nat) | SDSkip (c : nat)
 | STCloseB (c : nat) | STCloseE (c : nat) | SDSpawn (c : nat) | SGDone (c : nat)
 | SCloseCall | SNilBegin | SNilEnd | SWaited | SCloseRet
-| SSeen (c : nat) | SObsConn (p : nat) (s : cst) | SObsListed (c : nat) (b : bool) | SQuiesce.
+| SSeen (c : nat) | SObsConn (p : nat) (s : cst) | SObsListed (c : nat) (b : bool) | SQuiesce
+| SClose2Call | SClose2Ret.
 Inductive xlabel := XB (l : label) | XS (e : slab).
 
 Definition inserted (p : spc) : bool :=
@@ -224,6 +227,9 @@ Definition sstep (cap : nat) (ss : sstate) (x : xlabel) : option sstate :=
       | SObsConn p s => if squiescent ss && cst_eqb s (connectedness (base ss) p) then Some ss else None
       | SObsListed c b => if squiescent ss && Bool.eqb b (is_open (c_reg (gc (base ss) c))) then Some ss else None
       | SQuiesce => if squiescent ss then Some ss else None
+      (* a further Swarm.Close call: closeOnce makes it wait until the call that runs close() has finished *)
+      | SClose2Call => Some ss
+      | SClose2Ret => match x_pc ss with XRetP | XDone => Some ss | _ => None end
       end
   end.
 
